@@ -269,7 +269,7 @@ def run(tier):
     roles = "KkYAR"
     tasks = []
     for n in (1, 2, 3):
-        tasks += [(rs, True) for rs in itertools.product(roles, repeat=n)]
+        tasks += [(rs, True) for rs in itertools.product(roles + "Z", repeat=n)]
     tasks += [(rs, thorough) for rs in itertools.product(roles, repeat=4)]
     n5_roles = "KYA"
     if thorough:
@@ -285,13 +285,13 @@ def run(tier):
     api_tasks = []
     for d in dates:
         for n in (1, 2, 3):
-            api_tasks += [(rs, d) for rs in itertools.product("KYAR" if n == 3 else roles, repeat=n)]
+            api_tasks += [(rs, d) for rs in itertools.product("KYZA" if n == 3 else roles + "Z", repeat=n)]
     for part in harness.pmap(task_api, harness.rotate(api_tasks), chunksize=1):
         rep.merge(part)
     rep.bound = {
         "persons_all_row_orders": 4 if thorough else 3,
         "persons_identity_order_all_labelled_structures": 5 if thorough else 4,
-        "roles": roles, "roles_n5": n5_roles if thorough else None, "households": 2,
+        "roles": roles, "roles_up_to_3_persons": roles + "Z (ages 10, 3, 24, 25, 40, 70)", "roles_n5": n5_roles if thorough else None, "households": 2,
         "couples_n": 6 if thorough else 5, "api_level_persons": 3, "api_dates": dates,
     }
     rep.assumptions = [
